@@ -207,3 +207,18 @@ def run(R, tier):
                     ok = framer_ok(owner)
                     R.check(ok, "R10.7", "%s<-%s" % (c.method, owner), "framing call from the dispatcher (or a helper only it calls)", "%s calls %s: only the dispatcher frames messages and units" % (owner, c.method), where=c.line)
     R.floor("R10.7", "Formatter call sites", n_w, 40)
+
+    # ---- R10.8 a list answers as its elements joined by `,` - none leading, trailing, doubled or missing -------------------
+    # Emission tables (sa/rules/emit.py) of the list writers on lists of 1, 2, 3 and 5 opaque elements: what reaches the
+    # Formatter must be el0 , el1 , ... in order. (The empty list is C09's business.)
+    from . import emit as E
+    em = E.engine()
+    n_l = 0
+    for unit in P.units:
+        for b in unit.bodies:
+            s = b.impl_self or ""
+            if b.name == "format_response_data" and "ResponseData" in (b.impl_trait or "") and s.startswith(("alloc::vec::Vec<", "arrayvec::ArrayVec<")):
+                n_l += 1
+                bad = E.check_cases(em, b, E.list_cases((1, 2, 3, 5)))
+                R.check(not bad, "R10.8", "list:%s" % s.split("<")[0].split("::")[-1], "elements in order, one `,` between neighbours and nowhere else", "; ".join(bad[:3]), where=b.span)
+    R.floor("R10.8", "list writers", n_l, 2)
